@@ -18,14 +18,23 @@ def enc_state(s):
 def run_case(c):
     CLOCK.ticks = c["t0"]
     kw = {}
+    shared = None
     if c.get("trip_on") is not None:
-        kw["trip_on"] = {ErrorClass[n] for n in c["trip_on"]}
+        shared = kw["trip_on"] = {ErrorClass[n] for n in c["trip_on"]}
     if c.get("cthr"):
         kw["class_thresholds"] = {ErrorClass[n]: v for n, v in c["cthr"].items()}
     try:
+        if shared is not None:
+            # the caller's set object is the caller's: another breaker built from the same object (with a class threshold on a
+            # class outside it), and a later change of the set, must leave this breaker's configuration alone
+            outside = [k for k in ErrorClass if k not in shared and k.name not in (c.get("cthr") or {})]
+            if outside:
+                CircuitBreaker(failure_threshold=1, window_s=1.0, recovery_timeout_s=1.0, trip_on=shared, class_thresholds={outside[0]: 1})
         b = CircuitBreaker(
             failure_threshold=c["thr"], window_s=c["win"] * vclock.TICK,
             recovery_timeout_s=c["rto"] * vclock.TICK, **kw)
+        if shared is not None:
+            shared.update(ErrorClass)
     except Exception as e:
         return [["CTOR", type(e).__name__]]
     out = []
